@@ -71,7 +71,8 @@ const IDS: &[I] = &[
     I { name: "alice", user: Some("alice"), group: None, exe: None, proc_: None },
     I { name: "g", user: None, group: Some("vgrp"), exe: None, proc_: None },
     I { name: "alice", user: Some("bob"), group: None, exe: None, proc_: None }, // same name as IDS[0]
-    I { name: "proc", user: None, group: None, exe: Some("/usr/bin/curl"), proc_: Some("curl") },
+    // (/bin/sh is a symbolic link on this system and /bin a link to /usr/bin: the stated path is compared as stated)
+    I { name: "proc", user: None, group: None, exe: Some("/bin/sh"), proc_: Some("sh") },
     I { name: "any", user: None, group: None, exe: None, proc_: None },
     I { name: "both", user: Some("alice"), group: Some("vgrp"), exe: None, proc_: None },
 ];
@@ -94,9 +95,9 @@ struct Caller {
 const CALLERS: &[Caller] = &[
     Caller { label: "alice", user: "alice", groups: &["alice"], exe: "/usr/bin/python3", elevated: false },
     Caller { label: "bob", user: "bob", groups: &["bob", "vgrp"], exe: "/usr/bin/python3", elevated: false },
-    Caller { label: "alice-curl", user: "alice", groups: &["alice"], exe: "/usr/bin/curl", elevated: false },
-    Caller { label: "root", user: "root", groups: &["root"], exe: "/usr/bin/curl", elevated: true },
-    Caller { label: "Alice", user: "Alice", groups: &["VGRP"], exe: "/usr/bin/CURL", elevated: false },
+    Caller { label: "alice-curl", user: "alice", groups: &["alice"], exe: "/bin/sh", elevated: false },
+    Caller { label: "root", user: "root", groups: &["root"], exe: "/bin/sh", elevated: true },
+    Caller { label: "Alice", user: "Alice", groups: &["VGRP"], exe: "/bin/SH", elevated: false },
 ];
 
 const URLS: &[&str] = &[
